@@ -54,6 +54,7 @@ void _ZSt25__throw_bad_function_callv(void) { VT_FATAL("throw bad_function_call"
 void _ZSt16__throw_bad_castv(void) { VT_FATAL("throw bad_cast"); }
 void _ZSt20__throw_system_errori(uint32_t e) { VT_FATAL("throw system_error"); }
 void vt_model_overflow(void) { VT_FATAL("bounded std model capacity exceeded"); }
+void vt_model_out_of_range(void) { VT_FATAL("throw out_of_range (vector::at)"); }
 uint32_t __cxa_atexit(void *f, void *a, void *d) { return 0; }
 uint32_t __cxa_guard_acquire(uint64_t *g) { return *(uint8_t *)g == 0; }
 void __cxa_guard_release(uint64_t *g) { *(uint8_t *)g = 1; }
